@@ -23,6 +23,7 @@ type gnode struct {
 }
 
 var gPool4 = []gnode{{T: "P0"}, {T: "P0", Key: "k"}, {T: "P1", Group: "g"}, {T: "P1"}}
+var gPool5 = []gnode{{T: "P0"}, {T: "P0", Key: "k"}, {T: "P1", Group: "g"}, {T: "P1"}, {T: "P2"}}
 
 func (n gnode) nodeKey() graph.NodeKey {
 	nk := graph.NodeKey{Type: kit.TypeOf(n.T), Group: n.Group}
@@ -769,11 +770,21 @@ func c19Search(r *mc.Report, npool, maxDeps, maxStates int, shard, nshards int) 
 func init() {
 	mc.Register(&mc.Check{
 		Prop:   "C19",
-		Rule:   "explicit-state BFS directly on internal/graph: alphabet {AddProvider(n, ordered deps of length<=2 over the pool), AddProviderDeferred, RemoveProvider(n), Clear, DetectCycles}, node pool of 3 (quick) / 4 (thorough) identities mixing type, key and group; successors by replay on a fresh real graph; states de-duplicated by (model digraph, reflective deep dump of the real graph object incl. caches, dirty flags, degree fields), searched to closure or the state cap; after every transition every query is issued twice in two different orders and compared with the model; a rejected add must leave the deep dump unchanged. distinct = distinct canonical states.",
+		Rule:   "explicit-state BFS directly on internal/graph: alphabet {AddProvider(n, ordered deps of length<=2 over the pool), AddProviderDeferred, RemoveProvider(n), Clear, DetectCycles}, node pool of 3 (quick) / 4 (thorough) identities mixing type, key and group; successors by replay on a fresh real graph; states de-duplicated by (model digraph, reflective deep dump of the real graph object incl. caches, dirty flags, degree fields), searched to closure or the state cap; after every transition every query is issued twice in two different orders and compared with the model; a rejected add must leave the deep dump unchanged. Plus every DAG on 4 and on 5 nodes (all 64 / 1024 edge sets respecting one topological order x all 24 / 120 relabellings of the nodes), built deferred+DetectCycles and immediately, from the canonical and the reversed base map order, with every query (depths, transitive dependencies, roots / leaves, topological order) compared with the model. distinct = distinct canonical states.",
 		Assume: []string{"roots/leaves are defined by the component's in/out-degree convention (roots: no dependents, leaves: no dependencies)", "queries that read degree fields are only compared after the documented DetectCycles following deferred adds"},
 		Jobs: func(tier string) []mc.Job {
+			dags := func() []mc.Job {
+				var js []mc.Job
+				js = append(js, mc.Job{Name: "c19/dags4", Weight: 3, Run: func(r *mc.Report) { c19DAGs(r, 4, 0, 1) }})
+				for sh := 0; sh < 16; sh++ {
+					sh := sh
+					js = append(js, mc.Job{Name: fmt.Sprintf("c19/dags5#%d", sh), Weight: 6, Run: func(r *mc.Report) { c19DAGs(r, 5, sh, 16) }})
+				}
+				return js
+			}
 			if tier == "thorough" {
 				var jobs []mc.Job
+				jobs = append(jobs, dags()...)
 				jobs = append(jobs, mc.Job{Name: "c19/pool3", Run: func(r *mc.Report) { c19Search(r, 3, 2, 400000, 0, 1) }})
 				for sh := 0; sh < 16; sh++ {
 					sh := sh
@@ -782,6 +793,7 @@ func init() {
 				return jobs
 			}
 			jobs := []mc.Job{{Name: "c19/pool2", Weight: 20, Run: func(r *mc.Report) { c19Search(r, 2, 2, 200000, 0, 1) }}}
+			jobs = append(jobs, dags()...)
 			for sh := 0; sh < 10; sh++ {
 				sh := sh
 				jobs = append(jobs, mc.Job{Name: fmt.Sprintf("c19/pool3#%d", sh), Weight: 10, Run: func(r *mc.Report) { c19Search(r, 3, 1, 25000, sh, 10) }})
